@@ -281,7 +281,8 @@ def name_checks(F, M, V, cls, stats=None, latex=True, fam='history'):
               % (pos, got[pos - 1], pos, refnames[pos - 1], got[:14],
                  ['<unlabelled>' if r is ANY else r for r in refnames[:14]]))
     # a variable created without a label must still have a usable name
-    nonstr = [i for i, g in enumerate(got, start=1) if not (isinstance(g, str) and g)]
+    nonstr = [i for i, g in enumerate(got, start=1)
+              if not (isinstance(g, str) and (g or (i <= len(refnames) and refnames[i - 1] == '')))]
     if nonstr:
         if aligned and all(refnames[i - 1] is ANY for i in nonstr):
             V.bad('new_variable:no-label:name-not-a-string',
@@ -696,7 +697,7 @@ def vandalize_group(g):
 def cases_A(tier, seed):
     thorough = tier == 'thorough'
     shapes = []          # (kind, shape, graphlike)
-    for label in ('X', None):
+    for label in ('X', None, '', ' ', '0'):
         shapes.append(('variable', label, False))
     rmax, dmax = 3, 3
     for d in range(1, dmax + 1):
